@@ -1,4 +1,5 @@
 import Proofs.C20
+import Proofs.TieBuild
 #print axioms PV.Proofs.C20.build_inner_pos
 #print axioms PV.Proofs.C20.build_ok
 #print axioms PV.Proofs.C20.work_exact
@@ -8,3 +9,7 @@ import Proofs.C20
 #print axioms PV.Proofs.C20.no_panic
 #print axioms PV.Proofs.C20.panic_sites
 #print axioms PV.Proofs.C20.declared_panic_sites
+#print axioms PV.Proofs.Tie.declared_translated_build
+#print axioms PV.Proofs.Tie.build_inner_tie
+#print axioms PV.Proofs.Tie.build_kt_ratio_tie
+#print axioms PV.Proofs.Tie.build_loops_tie
